@@ -80,7 +80,43 @@ def run(ctx):
     rules.append(r5)
     rules.append(_loop_template_rule(ctx))
     rules.append(_recollect_rule(ctx))
+    rules.append(_constructor_texts_rule(ctx))
     return rules
+
+
+def _constructor_texts_rule(ctx):
+    """The question constructor merges the question type's defaults into the author's values.  For the display texts the
+    merge must be all-or-nothing: the author's value (a string or a per-language dict) exactly as written, or the type's
+    default when the author wrote nothing — a type default folded into the author's per-language dict is a text for a
+    language the author did not write it for."""
+    import itertools
+    from ..interp import Obj, Raised
+    r = Rule("C08", "C08.R8", "the question constructor stores the author's display texts exactly (type defaults never merged into them)", floor=30,
+             necessary="a type default merged under a language key is shown to that language's users instead of the '-' placeholder")
+    repo = ctx.repo
+    qc = repo.cls("pyxform.question:Question")
+    init = qc.methods["__init__"]
+    VALUES = {"absent": None, "text": "Written", "one language": {"fr": "Écrit"}, "two languages": {"en": "Written", "fr": "Écrit"}, "default language key": {"default": "W"}}
+    for slot, with_default in itertools.product(("hint", "label", "guidance_hint"), (False, True)):
+        for vn, v in VALUES.items():
+            qtd = {"t": {"bind": {"type": "int"}, "control": {"tag": "input"}}}
+            if with_default:
+                qtd["t"][slot] = "Type text"
+            kw = {"name": "q", "type": "t", "question_type_dictionary": qtd}
+            if v is not None:
+                kw[slot] = dict(v) if isinstance(v, dict) else v
+            it = ctx.interp("C08.R8", inline=lambda fi: True)
+            it.reset([])
+            o = Obj(qc, {}, name="q")
+            try:
+                it.call_function(init, [o], kw, None, None)
+                got = o.attrs.get(slot)
+            except Raised as e:
+                got = f"raises {e.exc_name}"
+            want = v if v is not None else ("Type text" if with_default else None)
+            r.check(got == want, f"Question({slot}={vn}, type default {'present' if with_default else 'absent'})", f"the stored {slot} is the author's value, else the type default", init.loc(),
+                    why_fail=f"stored {got!r}, expected {want!r}")
+    return r
 
 
 def _recollect_rule(ctx):
